@@ -503,7 +503,7 @@ func (x *Exec) evalQuant(kind string, e *ast.CallExpr, st *State, env *Env) Valu
 	b := body.T
 	if len(trigs) == 0 && len(objs) == 1 {
 		trigs = dedup(auto)
-	} else if len(trigs) == 0 && anchored == len(objs) {
+	} else if len(trigs) == 0 {
 		// multi-pattern: one anchor read per bound variable
 		var parts []string
 		for _, o := range objs {
